@@ -28,7 +28,7 @@ EXPLANATION = (
     'uses the same width/fill/unpack; R5 get_link_driver returns the first instance whose connect returns, continues only on '
     'WrongUriType, returns None after the loop; open_link turns None and any exception into connection_failed.')
 ASSUMPTIONS = ['urlparse/parse_qs/binascii.unhexlify behave as documented', 'optional drivers are only those init_drivers() can append']
-FLOORS = {'R1': 9, 'R2': 14, 'R3': 1, 'R4': 9, 'R5': 6}
+FLOORS = {'R1': 12, 'R2': 14, 'R3': 1, 'R4': 12, 'R5': 6}
 
 RATES = {'250K': 'DR_250KPS', '1M': 'DR_1MPS', '2M': 'DR_2MPS'}
 
@@ -122,6 +122,24 @@ def check(ctx):
         ctx.inst('R1', con, 'refuses-foreign-schemes', ok,
                  '%s.connect must raise WrongUriType for every URI not starting with its own scheme, before any side effect or any other exception; gate found for %s'
                  % (cname, sorted(schemes) or 'no scheme: every URI is claimed by this driver'))
+        # a pattern that takes fields out of the URI has to cover the whole URI: without the end anchor `usb://1a` or
+        # `usb://0/80/2M` is claimed and opened as device 1 / 0 instead of ending as "no driver" (malformed URI)
+        for c_ in walk_own(con.node):
+            if isinstance(c_, ast.Call) and norm(c_.func) in ('re.search', 're.match', 're.fullmatch') and c_.args:
+                pat_ = fold_in(con, c_.args[0])
+                if not isinstance(pat_, str):
+                    continue
+                try:
+                    ngroups = re.compile(pat_).groups
+                    items = list(re._parser.parse(pat_))
+                except Exception:
+                    continue
+                if not ngroups:
+                    continue
+                ends = norm(c_.func) == 're.fullmatch' or (bool(items) and str(items[-1][0]) == 'AT' and str(items[-1][1]) in ('AT_END', 'AT_END_STRING'))
+                begins = norm(c_.func) != 're.search' or (bool(items) and str(items[0][0]) == 'AT' and str(items[0][1]) in ('AT_BEGINNING', 'AT_BEGINNING_STRING'))
+                ctx.inst('R1', con, 'field-pattern-covers-the-whole-uri', ends and begins,
+                         '%s takes its fields with %r, which is not anchored at both ends: a URI with anything after (before) the fields is claimed and the rest ignored' % (cname, pat_), line=c_.lineno)
         if want and ok:
             ctx.inst('R1', con, 'scheme', sorted(schemes) == [want], '%s claims %s, expected %s://' % (cname, sorted(schemes), want))
     flat = [s for v in claims.values() for s in v]
@@ -342,7 +360,6 @@ def check(ctx):
                 if ft is not None and ft[0].startswith('radio://0/{}/') and nodes_:
                     for t, e in expand(nodes_[0], ft[0], ft[1], set()):
                         produced.append((nodes_[0], t, e, rate[0], s_.lineno))
-    import re
     walk_state(si.node.body, [None])
     ctx.need(len(produced) >= 6, 'scan_interface: expected six scan labels, found %d' % len(produced))
     for node, t, e, rate, line in produced:
@@ -374,6 +391,35 @@ def check(ctx):
     ctx.inst('R4', si, 'scan-address-conversion', len(addr_def) == 1 and format_template(addr_def[0]) == ('{:0>10X}', ['address']) and st.get('new_addr') == "struct.unpack('<BBBBB', binascii.unhexlify(addr))",
              'scan address uses the same 10-digit left padding and byte order as parse_uri')
 
+    # the dongle is shared between links: the radio thread programs it from the request itself before every transmission, so each
+    # setting that travels with a request (data rate, address, channel) has to reach the matching set_* call before the transmission
+    # - a scan that leaves the address of the previous user in place reports nothing (or somebody else's Crazyflie) at the asked address
+    srun = m.func(RD, '_SharedRadio.run')
+    gsr_ = cfg_of(srun)
+    setters = {'datarate': 'set_data_rate', 'address': 'set_address', 'channel': 'set_channel'}
+    nreq = 0
+    for un_ in [x for x in walk_own(srun.node) if isinstance(x, ast.Assign) and isinstance(x.targets[0], ast.Tuple) and norm(x.value).endswith('[2]')]:
+        fields = [norm(e) for e in un_.targets[0].elts]
+        branch = [i for i in ast.walk(srun.node) if isinstance(i, ast.If) and un_ in i.body]
+        if not branch:
+            continue
+        tx_ = [c for st_ in branch[0].body for c in ast.walk(st_) if isinstance(c, ast.Call) and isinstance(c.func, ast.Attribute) and norm(c.func.value) == 'self._radio' and
+               c.func.attr in ('send_packet', 'scan_selected', 'scan_channels')]
+        if len(tx_) != 1:
+            continue
+        nreq += 1
+        txn = gsr_.node_of(tx_[0])
+        missing = []
+        for f_ in fields:
+            if f_ in setters:
+                hits = [n for n, c in gsr_.find(lambda q, f_=f_: method_call(q, setters[f_]) and norm(q.func.value) == 'self._radio' and [norm(a_) for a_ in q.args] == [f_])
+                        if gsr_.dominates(n, txn) and any(c is x for st_ in branch[0].body for x in ast.walk(st_))]
+                if not hits:
+                    missing.append('%s -> %s' % (f_, setters[f_]))
+            elif not any(isinstance(x, ast.Name) and x.id == f_ and isinstance(x.ctx, ast.Load) for st_ in branch[0].body for x in ast.walk(st_)):
+                missing.append('%s is never used' % f_)
+        ctx.inst('R4', srun, 'request-settings-applied:' + tx_[0].func.attr, not missing, 'fields of the %s request %s; not applied before the transmission: %s' % (tx_[0].func.attr, fields, missing or 'none'))
+    ctx.need(nreq >= 3, '_SharedRadio.run: expected three transmitting request kinds, found %d' % nreq)
     # the driver registry only grows while init_drivers runs: emptying it first leaves a window in which another thread finds no driver
     idr = m.func(CR, 'init_drivers')
     shrink = [norm(x)[:40] for x in walk_own(idr.node) if (isinstance(x, ast.Delete) and any('CLASSES' in norm(t) for t in x.targets)) or
